@@ -364,7 +364,7 @@ func runC17(r *Run, p *Prog) {
 func isProtoRead(cs CallSite) bool {
 	c := cs.Common
 	if c.IsInvoke() {
-		return c.Method.Name() == "Read" && isNamed(c.Value.Type(), pkgVarlink, "ReadWriterContext")
+		return ctxIOInvoke(c, "Read")
 	}
 	if f := c.StaticCallee(); f != nil && f.Name() == "Read" && f.Signature.Recv() != nil {
 		return isNamed(f.Signature.Recv().Type(), pkgCtxio, "Conn")
